@@ -59,7 +59,7 @@ fn main() {
     rep.note("rule", json!("cases = (length n in 0..=130 [every n visited by every shard], draw k): random f32 vectors x,y,z of length n (plus an unequal-length partner), magnitudes log-uniform 1e-3..1e3, 5% zeros; every 4th draw y is a relative perturbation (1e-6..1e-2) of x; a case is non-trivial when n>0 and x,y are non-zero and different; distinct = FNV hash of (n, x, y) bits. Oracles: round-trip == input zero-padded to a multiple of 8; euclidean/cosine vs f64 textbook on the common packed prefix (rel 1e-5 + abs 1e-6 / abs 2e-5 for cosine); bit-level symmetry; d(x,x)==0; triangle inequality; |cos|<=1+1e-6; parallel/opposite = +-1; positive-scale invariance"));
     rep.note("assumptions", json!(["f64 evaluation of the textbook formula is the reference", "vectors hold finite values of magnitude <= ~5e3 (the property's 'several magnitudes')"]));
     let max_len = if cli.small { cli.param_u64("maxlen", 17) as usize } else { 130 };
-    let draws = cli.cases(40 * 8, 3000 * 16); // per shard: draws per length
+    let draws = cli.cases(200 * 8, 3000 * 16); // per shard: draws per length
     let mut idx: u64 = 0;
     let mut lengths_seen = std::collections::BTreeSet::new();
     for n in 0..=max_len {
